@@ -38,6 +38,7 @@ type Harness struct {
 	NoMerge   bool
 	SoftMS    int
 	ConcretizeN int
+	MaxDecisions int
 }
 
 type Loaded struct {
@@ -229,6 +230,8 @@ func (h *Harness) directive(text string) {
 		fmt.Sscanf(strings.TrimPrefix(t, "verif:depth "), "%d", &h.Depth)
 	case strings.HasPrefix(t, "verif:softms "):
 		fmt.Sscanf(strings.TrimPrefix(t, "verif:softms "), "%d", &h.SoftMS)
+	case strings.HasPrefix(t, "verif:maxdecisions "):
+		fmt.Sscanf(strings.TrimPrefix(t, "verif:maxdecisions "), "%d", &h.MaxDecisions)
 	case strings.HasPrefix(t, "verif:concretize "):
 		fmt.Sscanf(strings.TrimPrefix(t, "verif:concretize "), "%d", &h.ConcretizeN)
 	case t == "verif:budget-is-violation":
